@@ -107,13 +107,15 @@ static int op_box_open(int argc, char **argv, FILE *o) {
     rc = xc ? crypto_box_curve25519xchacha20poly1305_open_easy(m, b[0].p, b[0].n, b[1].p, b[2].p, b[3].p) : crypto_box_open_easy(m, b[0].p, b[0].n, b[1].p, b[2].p, b[3].p);
     fprintf(o, "%d %llu ", rc, rc == 0 ? (unsigned long long) cap : 0ULL); hx_put_hex(o, m, cap); free(m); fb(b, NB); return 0;
 }
-static int op_seal_open(int argc, char **argv, FILE *o) {
+static int seal_open_v(int xc, int argc, char **argv, FILE *o) {
     enum { NB = 3 }; buf_t b[NB]; int rc; unsigned char *m; size_t cap;
     if (nb(argc, argv, b, NB)) return -1; NEED(1, 32) NEED(2, 32)
     cap = b[0].n >= 48 ? b[0].n - 48 : 0; m = (unsigned char *) malloc(cap + 1); memset(m, 0x5c, cap);
-    rc = crypto_box_seal_open(m, b[0].p, b[0].n, b[1].p, b[2].p);
+    rc = xc ? crypto_box_curve25519xchacha20poly1305_seal_open(m, b[0].p, b[0].n, b[1].p, b[2].p) : crypto_box_seal_open(m, b[0].p, b[0].n, b[1].p, b[2].p);
     fprintf(o, "%d %llu ", rc, rc == 0 ? (unsigned long long) cap : 0ULL); hx_put_hex(o, m, cap); free(m); fb(b, NB); return 0;
 }
+static int op_seal_open(int argc, char **argv, FILE *o) { return seal_open_v(0, argc, argv, o); }
+static int op_seal_openx(int argc, char **argv, FILE *o) { return seal_open_v(1, argc, argv, o); }
 /* ---------- C06 */
 static int op_sign_seed_keypair(int argc, char **argv, FILE *o) {
     enum { NB = 1 }; buf_t b[NB]; unsigned char pk[32], sk[64], seed2[32], pk2[32];
@@ -255,7 +257,7 @@ bad:
 }
 const hx_op ops_c05[] = {
     {"x25519", op_x25519}, {"bulk.x25519", op_bulk_x25519}, {"bulk.x25519.pair", op_bulk_pair}, {"x25519.base", op_x25519_base}, {"box.seed_keypair", op_box_seed_keypair}, {"kx.seed_keypair", op_kx_seed_keypair},
-    {"kx.client", op_kx_client}, {"kx.server", op_kx_server}, {"box.easy", op_box_easy}, {"box.open", op_box_open}, {"seal.open", op_seal_open},
+    {"kx.client", op_kx_client}, {"kx.server", op_kx_server}, {"box.easy", op_box_easy}, {"box.open", op_box_open}, {"seal.open", op_seal_open}, {"seal.openx", op_seal_openx},
     {"sign.seed_keypair", op_sign_seed_keypair}, {"sign.detached", op_sign_detached}, {"sign.verify", op_sign_verify}, {"sign.open", op_sign_open},
     {"sign.ph", op_sign_ph}, {"sign.pk_to_curve", op_pk_to_curve}, {"sign.sk_to_curve", op_sk_to_curve},
     {"ed.valid", op_ed_valid}, {"ri.valid", op_ri_valid}, {"ed.add", op_ed_add}, {"ed.sub", op_ed_sub}, {"ri.add", op_ri_add}, {"ri.sub", op_ri_sub},
